@@ -139,7 +139,11 @@ func legSem(c *Ctx, rtl bool) {
 				if len(in) > 5 && c.Rng.Chance(70) {
 					continue
 				}
-				m, err := re.FindRunesMatchStartingAt(in, start)
+				m, err, pan := safeFind(re, in, start)
+				if pan != "" {
+					c.Add(&Case{Desc: fmt.Sprintf("pattern %q opts=%s input %+q start=%d", pat, o, string(in), start), Direct: "FindRunesMatchStartingAt panicked: " + pan, Class: "panic"})
+					continue
+				}
 				impl := encMatch(m, err)
 				desc := fmt.Sprintf("pattern %q opts=%s input %+q start=%d -> %v", pat, o, string(in), start, impl)
 				tail := []int64{b2i(rtl), int64(start), -1, semFuel}
@@ -161,6 +165,17 @@ func legSem(c *Ctx, rtl bool) {
 	for k := ALit; k <= AOptGroup; k++ {
 		c.Gate(fmt.Sprintf("AST kind %d generated", k), modes[fmt.Sprintf("kind%d", k)] > 0)
 	}
+}
+
+// safeFind: the engine call under recover (a run-time fault of the engine is a reported violation, not a crash of the leg)
+func safeFind(re *regexp2.Regexp, in []rune, start int) (m *regexp2.Match, err error, pan string) {
+	defer func() {
+		if p := recover(); p != nil {
+			pan = fmt.Sprint(p)
+		}
+	}()
+	m, err = re.FindRunesMatchStartingAt(in, start)
+	return
 }
 
 func lit(c rune) *Ast            { return &Ast{Kind: ALit, Ch: c} }
@@ -207,6 +222,23 @@ func adjacencyFamily() []*Ast {
 		}
 		out = append(out, alt(cat(rep(mkAtom(), 2, 2, false), lit('x')), cat(rep(mkAtom(), 2, 3, false), lit('y')), cat(rep(mkAtom(), 2, 2, false), lit('z'))))
 	}
+	// a class that mixes a shorthand with literals next to a class it overlaps only through the shorthand (the
+	// overlap test behind the automatic atomic loops must look at categories as well as ranges)
+	mixed := func(short byte, extra ...rune) *Ast {
+		a := &Ast{Kind: AClass, Items: []ClassItem{{Short: short}}}
+		for _, ch := range extra {
+			a.Items = append(a.Items, ClassItem{Lo: ch, Hi: ch})
+		}
+		return a
+	}
+	az := func() *Ast { return &Ast{Kind: AClass, Items: []ClassItem{{Lo: 'a', Hi: 'z'}}} }
+	dg := func() *Ast { return &Ast{Kind: AClass, Items: []ClassItem{{Lo: '0', Hi: '9'}}} }
+	out = append(out,
+		cat(grp(rep(mixed('w', '.'), 1, -1, false)), az()), cat(grp(rep(az(), 0, -1, false)), mixed('w', '.'), lit('x')),
+		cat(rep(mixed('d', '_'), 1, -1, false), dg()), cat(rep(dg(), 0, -1, false), mixed('d', '_'), lit('1')),
+		cat(rep(mixed('s', ','), 1, -1, false), &Ast{Kind: AClass, Items: []ClassItem{{Lo: ' ', Hi: ' '}}}),
+		cat(rep(mixed('w', '.'), 0, -1, true), az(), lit('.')), cat(rep(mixed('W', 'a'), 1, -1, false), mixed('w')),
+	)
 	// an anchor first or last next to a literal (the candidate-position filters of both scan directions key on them)
 	for _, an := range []string{"^", "$", `\A`, `\z`, `\Z`, `\b`, `\B`} {
 		a := func() *Ast { return &Ast{Kind: AAnchor, Name: an} }
